@@ -56,7 +56,7 @@ func runShutdown(scenario string) (rec shutRec) {
 		return rec
 	}
 	b, err := mk(func(w p2p.ResponseWriter, r *p2p.Request) {
-		time.Sleep(600 * time.Millisecond) // the reply comes long after the requester's deadline and after the stop
+		time.Sleep(scaled(600 * time.Millisecond)) // the reply comes long after the requester's deadline and after the stop
 		w.Write([]byte("late"))
 	})
 	if err != nil {
@@ -85,7 +85,7 @@ func runShutdown(scenario string) (rec shutRec) {
 		_ = a.Stop()
 		return rec
 	}
-	const timeout = 120 * time.Millisecond
+	timeout := scaled(120 * time.Millisecond)
 	p2p.VerifC17ConnSetTimeout(a, timeout)
 
 	const n = 6
@@ -118,7 +118,7 @@ func runShutdown(scenario string) (rec shutRec) {
 			select {
 			case c := <-done:
 				rec.Calls[i] = c
-			case <-time.After(8 * time.Second):
+			case <-time.After(scaled(8 * time.Second)):
 				rec.Calls[i] = shutCall{Class: "hang"}
 			}
 			rec.Calls[i].ElapsedMs = int(time.Since(t0) / time.Millisecond)
@@ -127,12 +127,12 @@ func runShutdown(scenario string) (rec shutRec) {
 	stopDone := make(chan error, 1)
 	switch scenario {
 	case "plain":
-		time.Sleep(40 * time.Millisecond)
+		time.Sleep(scaled(40 * time.Millisecond))
 		go func() { stopDone <- a.Stop() }()
 	default: // race-timeout
-		time.Sleep(30 * time.Millisecond)
-		go p2p.VerifC17ConnHoldResMu(a, 150*time.Millisecond) // 30 ms .. 180 ms, the deadline is at ~120 ms
-		time.Sleep(30 * time.Millisecond)
+		time.Sleep(scaled(30 * time.Millisecond))
+		go p2p.VerifC17ConnHoldResMu(a, scaled(150*time.Millisecond)) // 30 ms .. 180 ms, the deadline is at ~120 ms (all scaled)
+		time.Sleep(scaled(30 * time.Millisecond))
 		go func() { stopDone <- a.Stop() }() // 60 ms: before the deadline, while resMu is held
 	}
 	wg.Wait()
@@ -141,10 +141,10 @@ func runShutdown(scenario string) (rec shutRec) {
 		if err != nil {
 			rec.StopErr = err.Error()
 		}
-	case <-time.After(10 * time.Second):
+	case <-time.After(scaled(10 * time.Second)):
 		rec.StopHang = true
 	}
-	rec.Pending = p2p.VerifC17ConnPending(a, time.Second)
+	rec.Pending = p2p.VerifC17ConnPending(a, scaled(3*time.Second))
 	return rec
 }
 
